@@ -17,7 +17,7 @@ RULE = ('`python -m pyx12.scripts.x12norm` is run as a subprocess (one process p
         'Every sixth step the last 2-3 inputs are also normalised in ONE invocation (separate arguments in place, to stdout, or through a glob pattern in place); each result must equal the single-file run. non-trivial = distinct (document, option set) pairs; for the repair part those with >=1 perturbed counter.')
 ASSUMPTIONS = ['input files are ASCII (the tool opens files as ASCII by design); --output with several input files (each overwrites the last) is not judged',
                'a segment without any element is not generated (format() writes "SE*~" for "SE~")', 'the exit status and log lines on stderr are not judged']
-REQUIRED_COUNTERS = ['inputs:longer-than-one-read-buffer:inplace', 'inputs:longer-than-one-read-buffer:output', 'inputs:longer-than-one-read-buffer:stdout', 'invocations', 'mode:stdout', 'mode:output', 'mode:inplace', 'opt:eol', 'opt:fixcounting', 'idempotence-checked', 'repairs-checked', 'perturbed-counters', 'inputs:line-break-character-as-terminator', 'multi-file-invocations', 'multi-file:later-output-shorter', 'multi-file:inplace', 'multi-file:stdout', 'multi-file:inplace-glob']
+REQUIRED_COUNTERS = ['inputs:longer-than-one-read-buffer:inplace', 'inputs:longer-than-one-read-buffer:output', 'inputs:longer-than-one-read-buffer:stdout', 'invocations', 'mode:stdout', 'mode:output', 'mode:inplace', 'opt:eol', 'opt:fixcounting', 'idempotence-checked', 'repairs-checked', 'perturbed-counters', 'inputs:line-break-character-as-terminator', 'inputs:terminator-at-read-boundary', 'multi-file-invocations', 'multi-file:later-output-shorter', 'multi-file:inplace', 'multi-file:stdout', 'multi-file:inplace-glob']
 MIN_CASES = {'quick': 120, 'thorough': 3000}
 WATCHDOG_S = {'quick': 1200, 'thorough': 7200}
 
@@ -252,6 +252,27 @@ def run(ctx):
             if terms[0] in '\r\n':
                 ctx.count('inputs:line-break-character-as-terminator')
             text = doc.text(terms[0], terms[1], terms[2], brk)
+            if big and brk and len(text) > 9000:
+                # a filler segment sized so that a terminator is the last character of the reader's first buffer fill (106 + 8192) and its line break
+                # arrives with the next read; every other time the boundary falls between CR and LF
+                unit = terms[0] + brk
+                segs_ = text.split(unit)
+                off = 0
+                for i_, sg in enumerate(segs_):
+                    if off > 7000:
+                        break
+                    off += len(sg) + len(unit)
+                term_pos = off + len(segs_[i_])                      # index of the terminator of segment i_
+                want = 106 + 8192 - 1                                    # terminator = last character of the first fill
+                if brk == '\r\n' and k % 2:
+                    want = 106 + 8192 - 2                                # terminator and CR inside the first fill, LF outside
+                deficit = (want - term_pos) % 8192
+                if deficit < len('K3' + terms[1] + 'Q' + unit):
+                    deficit += 8192
+                filler = 'K3' + terms[1] + 'Q' * (deficit - len('K3' + terms[1]) - len(unit))
+                segs_.insert(i_, filler)
+                text = unit.join(segs_)
+                ctx.count('inputs:terminator-at-read-boundary')
             meta = {'map': e['file'], 'terms': list(terms), 'line_break': brk, 'perturbed': nper, 'k': ['c20', ctx.shard, k]}
         judge(ctx, text, meta, eol, fix, mode, nper, sigs)
         n += 1
